@@ -64,12 +64,11 @@ static const cfg_t cfgs[] = {
       { O_YIELD, O_CANCEL, O_JOIN, O_JOINX, O_FREE }, { S3 }, { 0 } },
     /* ---- thorough ---- */
     { "cancel||yield U@ES1 spin, X+Y observe", 0, K_ULT, 1, B_SPIN,
-      { O_CANCEL, O_JOIN, O_JOINX, O_FREE }, { O_SAMPLE, O_SAMPLE },
-      { O_SAMPLE } },
+      { O_CANCEL, O_JOIN, O_JOINX, O_FREE }, { O_SAMPLE }, { O_SAMPLE } },
     { "cancel(X) then free(P) U@ES1 spin malloc", 0, K_ULTM, 1, B_SPIN,
       { O_SAMPLE, O_JOINX, O_FREE }, { O_CANCEL }, { 0 } },
     { "cancel(X)||set(Y)||join(P) U@ES1 eventual", 0, K_ULT, 1, B_EVWAIT,
-      { O_JOIN, O_JOINX, O_FREE }, { O_CANCEL }, { O_SETEV, O_SAMPLE } },
+      { O_JOIN, O_JOINX, O_FREE }, { O_CANCEL }, { O_SETEV } },
     { "cancel(X)||block U@ES0 eventual, P sets+joins", 0, K_ULT, 0, B_EVWAIT,
       { O_YIELD, O_SETEV, O_JOIN, O_JOINX, O_FREE },
       { O_CANCEL, O_SAMPLE, O_SAMPLE }, { 0 } },
@@ -81,14 +80,15 @@ static const cfg_t cfgs[] = {
       { 0 } },
     { "revive x2 U@ES1->ES1, X observes", 0, K_ULT, 1, B_RET,
       { O_JOIN, O_REVIVE1, O_JOIN, O_REVIVE1, O_JOIN, O_JOINX, O_FREE },
-      { O_SAMPLE, O_SAMPLE }, { 0 } },
+      { O_SAMPLE }, { 0 } },
     { "revive after hand-off join U@ES0->ES0 exit, X observes", 0, K_ULT, 0,
       B_EXIT, { O_JOIN, O_REVIVE0, O_JOIN, O_JOINX, O_FREE }, { S3, O_SAMPLE },
       { 0 } },
     { "revive by X after X's join U@ES1, P observes", 0, K_ULT, 1, B_RET,
       { S3, O_JOINX, O_JOIN, O_FREE }, { O_JOIN, O_REVIVE1 }, { 0 } },
     { "tasklet revive T@ES1, X observes", 0, K_TASK, 1, B_RET,
-      { O_JOIN, O_REVIVE1, O_JOIN, O_JOINX, O_FREE }, { S3 }, { 0 } },
+      { O_JOIN, O_REVIVE1, O_JOIN, O_JOINX, O_FREE }, { O_SAMPLE, O_SAMPLE },
+      { 0 } },
     { "tasklet join(X)||run T@ES0", 0, K_TASK, 0, B_RET,
       { O_YIELD, O_SAMPLE, O_JOINX, O_FREE }, { O_SAMPLE, O_JOIN }, { 0 } },
     { "cancel before first run U@ES0, X joins", 0, K_ULTM, 0, B_RET,
